@@ -1,0 +1,8 @@
+//go:build verif
+
+package ratelimiter
+
+// VerifCleanup runs one cleanup pass now (the periodic routine runs one every ten minutes).
+func (rl *TokenBucketRateLimiter) VerifCleanup() {
+	rl.cleanup()
+}
